@@ -13,6 +13,7 @@ PROP = [  # (substring of the commit subject, property ids)
     ("__setitem__ recomputes", "C11"), ("combine concatenates", "C11"),
     ("diagonalize_form(reverse=True)", "C18"), ("spacelike_to completes", "C02 (also C15, C18)"),
     ("Hyperplane passes its normal vectors", "C15"),
+    ("sl2_irrep accumulates", "C17 (also C12)"), ("take the result dtype from mat @ inv", "C17 (also C12)"),
     ("symmetric_square called", "C05"), ("parse_simple", "C05"), ("parse_word(simple=False)", "C05"),
     ("integer-dtype representation", "C05 (also C12)"), ("_build_in_dict", "C09"), ("add_edges", "C09"), ("add_vertices creates a plain dict", "C09 (also C10)"), ("end_state", "C06"),
     ("from_angle", "C12"), ("standard_rotation", "C12"), ("integer", "C12"), ("CP1Disk", "C20"), ("intersects", "C20"),
